@@ -356,23 +356,25 @@ func SessionC16(t *tape.Tape) *core.RunResult {
 		if sent >= nCmds && g.pending == "" && len(k.Parked()) == 0 {
 			break
 		}
-		before := len(s.delivered) + len(s.lines) + k.evCount
+		// progress = lines in or out, or a task released; the clock moving is not progress by itself
+		progress := func() int { return len(s.delivered) + len(s.lines) + k.evCount - s.clockEvents }
+		before := progress()
 		s.stepRandom(gui, 8, 3)
 		g.judge()
 		// (2) deadlock: input is waiting, nothing is parked, nothing can run, and time does not help
-		if len(s.delivered)+len(s.lines)+k.evCount == before {
+		if progress() == before {
 			idle++
 		} else {
 			idle = 0
 		}
-		if idle > 40 && s.stall == 0 && len(k.Parked()) == 0 && !s.canDeliver() && s.loop != lsExited {
+		if idle > 40 && s.stall == 0 && len(k.RunnableParked()) == 0 && !s.canDeliver() && s.loop != lsExited {
 			for i := 0; i < 3; i++ {
 				s.advance(3600e9)
 				s.sync()
 			}
 			g.judge()
-			if len(k.Parked()) == 0 && !s.canDeliver() && !s.outClosed {
-				res.Violate("C16", "deadlock", s.steps, "after %q: the command loop neither waits for input nor runs, nothing is parked, no timer fires within three simulated hours, and the output consumer is reading", s.lastCmd)
+			if len(k.RunnableParked()) == 0 && !s.canDeliver() && !s.outClosed {
+				res.Violate("C16", "deadlock", s.steps, "after %q: the command loop neither waits for input nor runs, nothing that is parked can run (%s), no timer fires within three simulated hours, and the output consumer is reading", s.lastCmd, describeParked(k.Parked()))
 				g.dead = true
 			}
 			idle = 0
@@ -467,4 +469,18 @@ func SessionC16(t *tape.Tape) *core.RunResult {
 		}
 	}
 	return finish()
+}
+
+func describeParked(ps []*Task) string {
+	if len(ps) == 0 {
+		return "nothing is parked"
+	}
+	var sb strings.Builder
+	for i, t := range ps {
+		if i > 0 {
+			sb.WriteString(", ")
+		}
+		sb.WriteString(t.Name + " waits in front of a mutex at " + t.Point)
+	}
+	return sb.String()
 }
